@@ -672,8 +672,16 @@ def run_k(ctx, cases, budget=18.0):
     def one(job):
         cost, name, hdr, fn, ty, sh = job
         body = hdr + "\nDefinition cases : list %s := [\n%s\n].\n" % (ty, ";\n".join(c.coq for c in sh))
-        r = ctx.coqc(name, body + "Lemma corr : forallb %s cases = true.\nProof. vm_compute. reflexivity. Qed.\n" % fn,
-                     timeout=1500)
+        src = body + "Lemma corr : forallb %s cases = true.\nProof. vm_compute. reflexivity. Qed.\n" % fn
+        r = ctx.coqc(name, src, timeout=1500)
+        for _ in range(2):
+            # a genuine disagreement is the kernel refusing `true = false`; anything else (a shared .vo being
+            # rebuilt by a concurrent build, a load error) is retried
+            if r.ok or "Unable to unify" in r.out or "TIMEOUT" in r.out:
+                break
+            import time as _t
+            _t.sleep(5)
+            r = ctx.coqc(name, src, timeout=1500)
         idx = []
         if not r.ok:
             r2 = ctx.coqc(name + "_loc", body + "From NT Require Import Lists.\nEval vm_compute in (failing %s cases).\n" % fn,
